@@ -304,3 +304,80 @@ def _sim_real_gen(rng):
 
 native(f"{G}:GHE.simulate", _sim_real_check, _sim_real_gen, None,
        bound="real GHE objects (1 or 4 boreholes, 3 pipe types, 12/18/24 months): hybrid/hourly results independent of earlier simulate calls; zero load -> ground temperature exactly; ground temperature shift")
+
+
+# ---- C13: the design is a function of the physical inputs, not of the call history (bounded, real manager) --------------------------
+def _build_permuted(a, order_seed, nominal_height):
+    """the same configuration as build_manager(a), setters called in a shuffled order, another nominal borehole height"""
+    import random
+
+    from ghedesigner.manager import GHEManager
+
+    g = GHEManager()
+    calls = [
+        lambda: g.set_single_u_tube_pipe(inner_diameter=0.03404, outer_diameter=0.04216, shank_spacing=0.01856, roughness=1.0e-6, conductivity=a.get("k_pipe", 0.4), rho_cp=1542000.0),
+        lambda: g.set_soil(conductivity=a.get("k_soil", 2.0), rho_cp=a.get("rho_cp_soil", 2343493.0), undisturbed_temp=a.get("ugt", 18.3)),
+        lambda: g.set_grout(conductivity=a.get("k_grout", 1.0), rho_cp=3901000.0),
+        lambda: g.set_fluid(),
+        lambda: g.set_borehole(height=nominal_height, buried_depth=2.0, diameter=0.140),
+        lambda: g.set_simulation_parameters(num_months=a.get("months", 24), max_eft=35, min_eft=5, max_height=a.get("hmax", 135.0), min_height=a.get("hmin", 60.0),
+                                            max_boreholes=a.get("cap"), continue_if_design_unmet=a.get("cont", False)),
+        lambda: g.set_ground_loads_from_hourly_list(synth_loads(a.get("kind", "balanced"), a.get("scale", 2.0e4), a.get("phase", 0), a.get("spike", 0.0))),
+        (lambda: g.set_geometry_constraints_near_square(b=a.get("b", 6.0), length=a.get("length", 30.0))) if a.get("geom", "near_square") == "near_square"
+        else (lambda: g.set_geometry_constraints_rectangle(length=a.get("length", 30.0), width=a.get("width", 18.0), b_min=3.0, b_max=9.0)),
+    ]
+    random.Random(order_seed).shuffle(calls)
+    for c in calls:
+        c()
+    g.set_design(flow_rate=a.get("flow", 0.3), flow_type_str=a.get("flow_type", "borehole"))
+    return g
+
+
+def _design_of(g):
+    ghe = g._search.ghe
+    return {"field": [list(map(float, c)) for c in ghe.gFunction.bore_locations], "H": float(ghe.bhe.b.H), "hp_eft": [float(x) for x in ghe.hp_eft],
+            "tracker": [[float(v) if isinstance(v, (int, float)) else str(v) for v in row[1:]] for row in g._search.searchTracker]}
+
+
+def _history_check(a):
+    a = {k: v for k, v in a.items() if k != "pipe"}
+    ref_m = build_manager(a)
+    ref_m.find_design()
+    ref = _design_of(ref_m)
+
+    def differs(got, label):
+        for k in ("field", "H", "hp_eft"):
+            if got[k] != ref[k]:
+                return {"why": f"{label}: {k} differs from the reference run of the same physical inputs", "history": label, "component": k, "signature": "history-dependent/" + label,
+                        "reference": ref[k] if k != "hp_eft" else ref[k][:4], "got": got[k] if k != "hp_eft" else got[k][:4]}
+        return None
+
+    # 1. the search repeated on the same manager; 2. set_design repeated, then the search
+    ref_m.find_design()
+    bad = differs(_design_of(ref_m), "find_design-twice")
+    if bad:
+        return False, bad
+    ref_m.set_design(flow_rate=a.get("flow", 0.3), flow_type_str=a.get("flow_type", "borehole"))
+    ref_m.find_design()
+    bad = differs(_design_of(ref_m), "set_design-and-find_design-again")
+    if bad:
+        return False, bad
+    # 3. an unrelated design earlier in the same process, 4. setters permuted and another nominal borehole height
+    other = build_manager({**a, "kind": "cooling" if a.get("kind") != "cooling" else "heating", "scale": 3.1e4, "length": 18.0, "k_soil": 3.1, "months": 12})
+    other.find_design()
+    for seed, nominal in ((a.get("perm", 1), 55.5), (a.get("perm", 1) + 7, 310.0)):
+        m = _build_permuted(a, seed, nominal)
+        m.find_design()
+        bad = differs(_design_of(m), f"setters-permuted-nominal-height-{nominal}")
+        if bad:
+            return False, bad
+    return True, {"H": ref["H"], "n": len(ref["field"])}
+
+
+def _history_gen(rng):
+    return {"kind": rng.choice(["heating", "cooling", "balanced"]), "scale": rng.choice([8.0e3, 2.0e4, 4.0e4]), "length": rng.choice([12.0, 18.0]), "months": rng.choice([12, 24]),
+            "geom": rng.choice(["near_square", "near_square", "rectangle"]), "flow_type": rng.choice(["borehole", "system"]), "perm": rng.randrange(1000), "cont": True}
+
+
+native("ghedesigner.manager:GHEManager.find_design", _history_check, _history_gen, None,
+       bound="real GHEManager: reference run vs. find_design twice, set_design+find_design again, an unrelated design earlier in the process, shuffled setter order with nominal borehole heights 55.5 / 310 m: field, height and temperatures bit-identical")
